@@ -133,9 +133,16 @@ def parse(cmd, rc, out, err, wall, R, gen_name):
                                  obligation=None, rendered=d.get('rendered', '')))
             continue
         if prim is None or os.path.basename(prim.get('file_name', '')) != gen_name:
-            U.failed.append(dict(kind='inconclusive', message=msg, gen_line=gl, origin=origin, fn=None, obligation=None,
-                                 rendered=d.get('rendered', '')))
-            continue
+            # e.g. an inherited trait-level `ensures` of vstd (PartialOrd::partial_cmp): the clause lives in vstd, the
+            # function that fails it lives in the generated file -> use the first span inside the generated file
+            alt = [sp for sp in d.get('spans', []) if os.path.basename(sp.get('file_name', '')) == gen_name]
+            if not alt or _kindword(low) is None:
+                U.failed.append(dict(kind='inconclusive', message=msg, gen_line=gl, origin=origin, fn=None, obligation=None,
+                                     rendered=d.get('rendered', '')))
+                continue
+            gl = alt[0]['line_start']
+            origin = R.origin[gl - 1] if 0 < gl <= len(R.origin) else ('?',)
+            label = _label(R, gl, alt[0]['line_end'])
         kindword = _kindword(low)
         if kindword is None:
             U.failed.append(dict(kind='inconclusive', message=msg, gen_line=gl, origin=origin, fn=fn['name'] if fn else None,
